@@ -53,8 +53,9 @@ func (sms *sqlMetadataStore) PutObjectTagging(ctx context.Context, tx *sql.Tx, b
 		return err
 	}
 
-	// Bump the object's updated_at / optimistic lock version so the tag change
-	// is reflected in the object metadata and concurrent writers are detected.
+	// Bump the object's optimistic lock version so concurrent writers are
+	// detected. updated_at (Last-Modified) is kept: tagging does not modify
+	// the version's content.
 	return sms.objectRepository.SaveObject(ctx, tx, objectEntity)
 }
 
